@@ -29,6 +29,10 @@ CLAIMS = {
                 note=_NOTE, technique="symbolic execution of __eq__/__lt__/fields/get_with/get_as/parent/... (CrossHair+z3) with state snapshots"),
     "C08": dict(z=True, text=_X + ". The real FindInList.find / Sid.match run on lists of one or two fully symbolic entries for an enumerated set of searches, against a segment-wise glob reference over the reference unfolding; z3 proves the regex returned by the real glob2re equivalent to the reference glob language for every pattern up to length 3-4 over a 14-letter alphabet of metacharacters.",
                 note=_NOTE, technique="symbolic execution of FindInList.find/star_search/Sid.match (CrossHair+z3) with symbolic list entries; z3 regex language equivalence for glob2re"),
+    "C09": dict(z=True, text=_X + ". The real sorted_search / FindInList / FindInAll / get_last run on lists with symbolic entries for enumerated '>' searches against a group-by-prefix / segment-wise-greatest reference; FindInAll over a type-aware stub source; a data-change sequence for get_last; concrete check that the shipped data configuration hands the same Finder instance to sibling types.",
+                note=_NOTE, technique="symbolic execution of sorted_search/FindInAll.find/get_last (CrossHair+z3) with symbolic list entries against a segment-wise reference"),
+    "C10": dict(text=_X + ". The rewrite rules are checked as relations between two or more runs of the real code: at the unfold level with symbolic tokens, and on FindInList result sets with symbolic entries for enumerated (search, derived search) pairs.",
+                note=_NOTE, technique="symbolic execution (CrossHair+z3) of pairs of real searches related by the rewrite rules (metamorphic relations, inputs symbolic)"),
 }
 
 NOT_APPLICABLE = {}
